@@ -671,7 +671,8 @@ func (c *codegen) call2(k fnKey, recv ast.Expr, x *ast.CallExpr) ([]string, []gt
 		cb bool
 	}
 	var outs []outArg
-	for i, a := range x.Args {
+	args := c.addrArgs(x.Args, sig) // code_lend.go: `&P` for a pointer parameter is the path P
+	for i, a := range args {
 		pt := sig.params[i].typ
 		if pt.kind == kFunc {
 			// the callback is handed on: the callee's log is appended to ours
@@ -751,7 +752,7 @@ func (c *codegen) call2(k fnKey, recv ast.Expr, x *ast.CallExpr) ([]string, []gt
 		}
 		if c.phase4 {
 			// the same variable passed for a written parameter and for another one: aliasing
-			for j2, a2 := range x.Args {
+			for j2, a2 := range args {
 				if id2 := rootIdent(a2); id2 != nil && a2 != o.e && id2.Name == rootIdent(o.e).Name && !c.disjointArgs(a2, o.e) {
 					c.fail(x, "variable %s is passed twice to %s, which writes one of the two parameters (aliasing)", id2.Name, fnName(k))
 				}
@@ -1771,14 +1772,17 @@ func (c *codegen) gen2(k fnKey, flags *fnSig, probe bool) (fnOut, *fnSig) {
 		out = append(out, a...)
 		out = append(out, "")
 	}
-	if len(f.nonNilUsed) > 0 {
-		out = append(out, fmt.Sprintf("/-- `%s` — %s\n    ASSUMES (topic assumption, code_parse.go) that the pointer parameter(s) %s are not nil:\n    `p == nil` ↦ False, `p != nil` ↦ True. -/",
-			gosig, c.pos(fd), strings.Join(f.nonNilUsed, ", ")))
-	} else if notes := ptrAliasNotes[fd]; len(notes) > 0 {
-		out = append(out, fmt.Sprintf("/-- `%s` — %s\n    local pointer aliases eliminated at source level (code_ptralias.go): `%s`. -/",
-			gosig, c.pos(fd), strings.Join(notes, "`, `")))
-	} else {
-		out = append(out, fmt.Sprintf("/-- `%s` — %s -/", gosig, c.pos(fd)))
+	{
+		doc := fmt.Sprintf("/-- `%s` — %s", gosig, c.pos(fd))
+		if len(f.nonNilUsed) > 0 {
+			doc += fmt.Sprintf("\n    ASSUMES (topic assumption, code_parse.go) that the pointer parameter(s) %s are not nil:\n    `p == nil` ↦ False, `p != nil` ↦ True.", strings.Join(f.nonNilUsed, ", "))
+		} else if notes := ptrAliasNotes[fd]; len(notes) > 0 {
+			doc += fmt.Sprintf("\n    local pointer aliases eliminated at source level (code_ptralias.go): `%s`.", strings.Join(notes, "`, `"))
+		}
+		if notes := viewNotes[fd]; len(notes) > 0 { // code_lend.go
+			doc += fmt.Sprintf("\n    view methods inlined at their range statements (code_lend.go): `%s`.", strings.Join(notes, "`, `"))
+		}
+		out = append(out, doc+" -/")
 	}
 	hdr := "def " + leanFn(k)
 	if sig.grow {
